@@ -188,6 +188,13 @@ func buildSource(ctx context.Context, r *vkit.Run, rng *vkit.Rand, s storage.Sto
 		if err := put(bn, fmt.Sprintf("shape/full-%d", bi), rng.Bytes(1+rng.Intn(5000)), vkit.Ptr("application/json; charset=utf-8"), fullMeta(rng, 10+bi), specialTags, classAt(bi+4), "all-metadata"); err != nil {
 			return nil, err
 		}
+		// objects carrying exactly one kind of attribute
+		if err := put(bn, fmt.Sprintf("shape/user-meta-only-%d", bi), rng.Bytes(100), nil, &storage.ObjectMetadata{UserMetadata: map[string]string{"only": "user metadata"}}, nil, nil, "user-metadata-only"); err != nil {
+			return nil, err
+		}
+		if err := put(bn, fmt.Sprintf("shape/tags-only-%d", bi), rng.Bytes(100), nil, nil, map[string]string{"only": "tags"}, nil, "tags-only"); err != nil {
+			return nil, err
+		}
 		// bare object: nothing set at all
 		if err := put(bn, fmt.Sprintf("shape/bare-%d", bi), rng.Bytes(rng.Intn(300)), nil, nil, nil, nil, "bare"); err != nil {
 			return nil, err
@@ -395,7 +402,18 @@ func runC37Case(ctx context.Context, r *vkit.Run, base *vkit.Rand, c c37Case) {
 	before := vmodel.Snapshot(ctx, dst, vmodel.SnapOptions{})
 
 	// ---- the migration
-	migErr := migrator.MigrateStorage(ctx, src, dst)
+	migErr := func() (err error) {
+		defer func() {
+			if p := recover(); p != nil {
+				err = fmt.Errorf("panic in MigrateStorage: %v", p)
+			}
+		}()
+		return migrator.MigrateStorage(ctx, src, dst)
+	}()
+	if migErr != nil && strings.Contains(migErr.Error(), "panic in MigrateStorage") {
+		r.Violation("migrate-storage-panics", migErr.Error(), c37Witness{Case: c, MigErr: migErr.Error()})
+		return
+	}
 	r.Count("migrations", 1)
 	after := vmodel.Snapshot(ctx, dst, vmodel.SnapOptions{})
 	sig := fmt.Sprintf("%s>%s|%s%s|collide=%v|objs=%d|big=%d|buckets=%d", c.Src, c.Dst, c.Mode, c.Pos, c.Collide, nobj, len(c.Big), len(order))
